@@ -687,6 +687,10 @@ fn expand_brace(tokens: &mut types::Tokens) {
         for (j, token) in items.iter().enumerate() {
             let sep = if token.contains(' ') { "\"" } else { "" };
             tokens.insert(*i + j, (sep.to_string(), token.clone()));
+            // a word that a brace list produced is an argument: an
+            // alternative such as `|` (from a variable: `{$A,$B}`) is no
+            // operator
+            protect_produced_text(&mut tokens[*i + j]);
         }
     }
 }
